@@ -184,6 +184,28 @@ fn check(rep: &mut Report, db: &AbsDb, rng: &mut Rng, case: u64) -> Result<(), F
     if exp2.summary != s.model.summary {
         return Err(Fail { clause: "saved/summary".into(), what: format!("saved summary {:?}, model {:?}", exp2.summary, s.model.summary) });
     }
+    // properties the library does not interpret (and every typed value it cannot produce itself) survive a save
+    if let (Some(a), Some(b)) = (&raw.summary_raw, &raw2.summary_raw) {
+        let (pa, pb) = (crate::propset_codec::parse(a), crate::propset_codec::parse(b));
+        if let Some(p) = pb.problems.first() {
+            return Err(Fail { clause: "saved/summary-stream-malformed".into(), what: format!("independent parser on the saved summary stream: {}", p) });
+        }
+        for (id, (_, v)) in pa.props.iter() {
+            if matches!(id, 1 | 2 | 3 | 4 | 6 | 7 | 9 | 12 | 15 | 18) {
+                continue;
+            }
+            match pb.props.get(id) {
+                Some((_, w)) if w == v => {}
+                other => {
+                    return Err(Fail {
+                        clause: "saved/unknown-summary-property".into(),
+                        what: format!("summary property {} = {:?} (not interpreted by the library) reads {:?} after the API changes were saved", id, v, other.map(|x| &x.1)),
+                    })
+                }
+            }
+        }
+        rep.count("summary_streams_compared");
+    }
     if exp2.ptype != expected.ptype || exp2.db_codepage != expected.db_codepage {
         return Err(Fail { clause: "saved/header".into(), what: "package type or database code page changed".into() });
     }
